@@ -29,10 +29,11 @@ package verify
 //	S  ::= - | s(<key>~<msg>) | j<n>                 msg ::= T<id> | G<prog> | MP(<a>~<prog>) | QP(<a>~<prog>) | o<n>
 //	MS ::= - | <v>:<thr>:N | <v>:<thr>:[<key>/<S>;...]          (N = nil subsig slice)
 //	PQ ::= - | <scheme>:<salt>:<e|f<i>|x<n>>:<e|s(f<i>~<msg>)|j<n>>
-//	LS ::= - | p=<prog|->,len=<n>,ver=<n|x>,chk=<0|1>,ev=<p|r|e|->,tpl=<name>,na=<n>,al=<n>,sig=<S>,msig=<MS>,lmsig=<MS>,pq=<PQ>
+//	LS ::= - | p=<prog|->,len=<n>,ver=<n|x>,chk=<0|1>,ev=<p|r|e|->,tpl=<name>,na=<n>,al=<n>,args=<-|n>,sig=<S>,msig=<MS>,lmsig=<MS>,pq=<PQ>
 //
 // Result line: `ok` | `rej <reason> <group index> <detail>` | `batch` (crypto.ErrBatchHasFailedSigs) | `panic` | `other <text>`.
 import (
+	"context"
 	stdsha "crypto/sha512"
 	"encoding/base64"
 	"encoding/binary"
@@ -50,6 +51,7 @@ import (
 	"github.com/algorand/go-algorand/data/transactions"
 	"github.com/algorand/go-algorand/data/transactions/logic"
 	"github.com/algorand/go-algorand/protocol"
+	"github.com/algorand/go-algorand/util/execpool"
 	"github.com/algorand/go-algorand/zz_verif_tools/vh"
 )
 
@@ -196,6 +198,19 @@ func (s *verifC28Sym) prog(p []byte) string {
 	return t
 }
 
+// args: identity of the (unsigned) LogicSig arguments — only the cache comparison looks at it
+func (s *verifC28Sym) args(a [][]byte) string {
+	if len(a) == 0 {
+		return "-"
+	}
+	var b []byte
+	for _, x := range a {
+		b = append(b, byte(len(x)>>8), byte(len(x)))
+		b = append(b, x...)
+	}
+	return s.jnk("args:" + string(b))[1:] // numbered like unknown byte strings, printed without the j
+}
+
 func (s *verifC28Sym) pqk(pk []byte) string {
 	if len(pk) == 0 {
 		return "e"
@@ -327,15 +342,14 @@ func verifC28B(b bool) string {
 	return "0"
 }
 
-func verifC28Symbolize(w *verifC28World, proto protocol.ConsensusVersion, enc [][]byte, label string) (string, bool) {
-	stxs, ok := verifC28Decode(enc)
-	if !ok {
-		return "", false
-	}
-	params := config.Consensus[proto]
-	s := &verifC28Sym{w: w, addrTok: map[basics.Address]string{}, unk: map[[32]byte]string{}, txnID: map[string]string{}, progID: map[string]string{},
+func verifC28NewSym(w *verifC28World) *verifC28Sym {
+	return &verifC28Sym{w: w, addrTok: map[basics.Address]string{}, unk: map[[32]byte]string{}, txnID: map[string]string{}, progID: map[string]string{},
 		msgTok: map[string]string{}, other: map[string]string{}, junk: map[string]string{}, pqkUnk: map[string]string{}}
-	// pass 1: intern programs / PQ keys, register the derived addresses (own derivations)
+}
+
+// register (pass 1): intern programs / PQ keys, register the derived addresses (own derivations).  For the cache stream all
+// variants of a family are registered before any of its lines is written, so a token never changes between lines.
+func (s *verifC28Sym) register(stxs []transactions.SignedTxn) {
 	for i := range stxs {
 		st := &stxs[i]
 		s.prog(st.Lsig.Logic)
@@ -352,6 +366,22 @@ func verifC28Symbolize(w *verifC28World, proto protocol.ConsensusVersion, enc []
 		s.regMsig(&st.Lsig.Msig)
 		s.regMsig(&st.Lsig.LMsig)
 	}
+}
+
+func verifC28Symbolize(w *verifC28World, proto protocol.ConsensusVersion, enc [][]byte, label string) (string, bool) {
+	stxs, ok := verifC28Decode(enc)
+	if !ok {
+		return "", false
+	}
+	s := verifC28NewSym(w)
+	s.register(stxs)
+	return s.line("g", proto, stxs, enc, label), true
+}
+
+// line: the op line (`head` = "g", "c add" or "c via") describing the decoded group symbolically, plus its wire bytes
+func (s *verifC28Sym) line(head string, proto protocol.ConsensusVersion, stxs []transactions.SignedTxn, enc [][]byte, label string) string {
+	w := s.w
+	params := config.Consensus[proto]
 	// pass 2: the messages the verifier will look at
 	for i := range stxs {
 		st := &stxs[i]
@@ -384,7 +414,7 @@ func verifC28Symbolize(w *verifC28World, proto protocol.ConsensusVersion, enc []
 	if label == "" {
 		label = "none"
 	}
-	fmt.Fprintf(&sb, "g proto=%s m=%s P=%s,%s,%s,%d,%d,%d,%s,%s,%s pre=%s n=%d", verifC28ProtoName(proto), label,
+	fmt.Fprintf(&sb, "%s proto=%s m=%s P=%s,%s,%s,%d,%d,%d,%s,%s,%s pre=%s n=%d", head, verifC28ProtoName(proto), label,
 		verifC28B(params.SupportRekeying), verifC28B(params.EnforceAuthAddrSenderDiff), verifC28B(params.PQSigEnabled()), params.LogicSigVersion,
 		params.LogicSigMaxSize, params.MaxAbsoluteLogicSigProgramSize, verifC28B(params.LogicSigMsig), verifC28B(params.LogicSigLMsig),
 		verifC28B(params.TxnSizePricingEnabled()), pre, len(stxs))
@@ -423,8 +453,8 @@ func verifC28Symbolize(w *verifC28World, proto protocol.ConsensusVersion, enc []
 		if !ok {
 			tpl = "unk"
 		}
-		fmt.Fprintf(&sb, " lsig=p=%s,len=%d,ver=%s,chk=%s,ev=%s,tpl=%s,na=%d,al=%d,sig=%s,msig=%s,lmsig=%s,pq=%s", s.prog(l.Logic), len(l.Logic), ver, chk, ev, tpl,
-			len(l.Args), l.ArgsLen(), s.sig(l.Sig), s.msig(&l.Msig), s.msig(&l.LMsig), s.pq(&l.PQsig))
+		fmt.Fprintf(&sb, " lsig=p=%s,len=%d,ver=%s,chk=%s,ev=%s,tpl=%s,na=%d,al=%d,args=%s,sig=%s,msig=%s,lmsig=%s,pq=%s", s.prog(l.Logic), len(l.Logic), ver, chk, ev, tpl,
+			len(l.Args), l.ArgsLen(), s.args(l.Args), s.sig(l.Sig), s.msig(&l.Msig), s.msig(&l.LMsig), s.pq(&l.PQsig))
 	}
 	sb.WriteString(" | raw=")
 	for i, e := range enc {
@@ -433,7 +463,7 @@ func verifC28Symbolize(w *verifC28World, proto protocol.ConsensusVersion, enc []
 		}
 		sb.WriteString(base64.RawStdEncoding.EncodeToString(e))
 	}
-	return sb.String(), true
+	return sb.String()
 }
 
 // the TEAL oracle: what logic.CheckSignature / EvalSignatureFull say about program gi of this group (fresh EvalParams)
@@ -683,6 +713,9 @@ type verifC28Gen struct {
 	ctr   uint64
 	hbRng *verifC28Rng
 	label []string // what was changed after signing (goes into the op line for the coverage statistics only)
+	// percentages of groups that get field-wise / byte-wise changes after signing (0 = the defaults 45 / 12)
+	mutPct, bytePct int
+	maxGroup        int // 0 = up to 16
 }
 
 type verifC28Rng struct{ r *vh.Rng }
@@ -1048,6 +1081,9 @@ func (g *verifC28Gen) group() [][]byte {
 	default:
 		n = 5 + r.Intn(12)
 	}
+	if g.maxGroup != 0 && n > g.maxGroup {
+		n = 1 + r.Intn(g.maxGroup)
+	}
 	slots := make([]verifC28Slot, n)
 	stxs := make([]transactions.SignedTxn, n)
 	for i := range slots {
@@ -1101,7 +1137,11 @@ func (g *verifC28Gen) group() [][]byte {
 		g.authorize(&stxs[i], &slots[i].acct, a)
 	}
 	// post-signing changes: none for most groups, otherwise 1-2 on random members
-	if r.Chance(45) {
+	mutPct, bytePct := 45, 12
+	if g.mutPct != 0 {
+		mutPct, bytePct = g.mutPct, g.bytePct
+	}
+	if r.Chance(mutPct) {
 		for c := 1 + r.Intn(2); c > 0; c-- {
 			i := r.Intn(n)
 			g.mutate(&stxs[i], &slots[i], n)
@@ -1112,7 +1152,7 @@ func (g *verifC28Gen) group() [][]byte {
 		enc[i] = protocol.Encode(&stxs[i])
 	}
 	// byte-wise change of the wire bytes of one member
-	if r.Chance(12) {
+	if r.Chance(bytePct) {
 		i := r.Intn(n)
 		for tries := 0; tries < 8; tries++ {
 			m := append([]byte{}, enc[i]...)
@@ -1361,6 +1401,236 @@ func verifC28Generate(seed uint64, n int) []string {
 	return lines
 }
 
+// ---------------------------------------------------------------------------------------------------------------------
+// the verified-transaction CACHE path: one shared cache, groups verified INTO it (`c add` = verify.TxnGroup with the cache) and
+// groups presented THROUGH it (`c via` = GetUnverifiedTransactionGroups + PaysetGroups, as block validation does).
+//
+//	c reset                        a fresh cache
+//	c add <body of a g line>       result `add <verdict>`
+//	c via <body of a g line>       result `hit ; scratch <verdict>` | `miss <verdict> ; scratch <verdict>`
+//
+// `scratch` = the verdict of verify.TxnGroup on the very same bytes without any cache.  Within a family (reset … reset) the
+// symbolic tokens are shared between the lines, so equal tokens mean equal bytes across lines (same txid, same signature …).
+
+type verifC28CacheState struct {
+	cache VerifiedTransactionCache
+	pool  execpool.BacklogPool
+}
+
+func verifC28ParseBody(f []string) (protocol.ConsensusVersion, [][]byte, bool) {
+	if len(f) < 2 || !strings.HasPrefix(f[0], "proto=") || !strings.HasPrefix(f[len(f)-1], "raw=") {
+		return "", nil, false
+	}
+	proto, ok := verifC28ProtoByName(strings.TrimPrefix(f[0], "proto="))
+	if !ok {
+		return "", nil, false
+	}
+	var enc [][]byte
+	if raw := strings.TrimPrefix(f[len(f)-1], "raw="); raw != "" {
+		for _, p := range strings.Split(raw, ".") {
+			b, err := base64.RawStdEncoding.DecodeString(p)
+			if err != nil {
+				return "", nil, false
+			}
+			enc = append(enc, b)
+		}
+	}
+	return proto, enc, true
+}
+
+func (cs *verifC28CacheState) exec(line string) string {
+	f := strings.Fields(line)
+	if len(f) < 2 || f[0] != "c" {
+		return "bad-op"
+	}
+	if f[1] == "reset" {
+		cs.cache = MakeVerifiedTransactionCache(4000)
+		return "ok"
+	}
+	proto, enc, ok := verifC28ParseBody(f[2:])
+	if !ok || cs.cache == nil || len(enc) == 0 {
+		return "bad-op"
+	}
+	stxs, ok1 := verifC28Decode(enc)
+	fresh, ok2 := verifC28Decode(enc) // the cache keeps the slice it verified: never hand it memory we use again
+	if !ok1 || !ok2 {
+		return "bad-op"
+	}
+	crypto.SetEd25519BatchVerifier(false)
+	hdr := verifC28Header(proto)
+	switch f[1] {
+	case "add":
+		return vh.Catch(func() string {
+			_, err := TxnGroup(stxs, &hdr, cs.cache, verifC28Ledger{})
+			return "add " + verifC28Classify(err)
+		})
+	case "via":
+		scratch := vh.Catch(func() string {
+			_, err := TxnGroup(fresh, &hdr, nil, verifC28Ledger{})
+			return verifC28Classify(err)
+		})
+		return vh.Catch(func() string {
+			spec := transactions.SpecialAddresses{FeeSink: verifC28FeeSink, RewardsPool: verifC28Pool}
+			unverified := cs.cache.GetUnverifiedTransactionGroups([][]transactions.SignedTxn{stxs}, spec, proto)
+			if len(unverified) == 0 {
+				return "hit"
+			}
+			err := PaysetGroups(context.Background(), unverified, hdr, cs.pool, cs.cache, verifC28Ledger{})
+			return "miss " + verifC28Classify(err)
+		}) + " ; scratch " + scratch
+	}
+	return "bad-op"
+}
+
+// variant: the same transaction bodies (same txids), other authorization material / AuthAddr on one member
+func (g *verifC28Gen) cacheVariant(base []transactions.SignedTxn) ([]transactions.SignedTxn, string) {
+	r := g.r
+	v := make([]transactions.SignedTxn, len(base))
+	for i := range base {
+		v[i] = base[i]
+		v[i].Msig.Subsigs = append([]crypto.MultisigSubsig(nil), base[i].Msig.Subsigs...)
+		v[i].Lsig.Msig.Subsigs = append([]crypto.MultisigSubsig(nil), base[i].Lsig.Msig.Subsigs...)
+		v[i].Lsig.LMsig.Subsigs = append([]crypto.MultisigSubsig(nil), base[i].Lsig.LMsig.Subsigs...)
+	}
+	st := &v[r.Intn(len(v))]
+	other := func() basics.Address { return g.w.addr(r.Intn(verifC28NumKeys)) }
+	prog := logic.Program(st.Lsig.Logic)
+	switch x := r.Intn(100); {
+	case x < 8:
+		return v, "same"
+	case x < 36: // only the AuthAddr differs: the signature material stays what it was
+		switch r.Intn(4) {
+		case 0:
+			st.AuthAddr = basics.Address{}
+		case 1:
+			st.AuthAddr = st.Txn.Sender
+		default:
+			st.AuthAddr = other()
+		}
+		return v, "authaddr"
+	case x < 50: // a consistent re-authorization by another key: AuthAddr names it and it signs
+		k := r.Intn(verifC28NumKeys)
+		st.AuthAddr = g.w.addr(k)
+		if st.AuthAddr == st.Txn.Sender {
+			st.AuthAddr = basics.Address{}
+		}
+		st.Sig, st.Msig, st.Lsig, st.PQsig = g.w.sign(k, st.Txn), crypto.MultisigSig{}, transactions.LogicSig{}, transactions.PQSig{}
+		return v, "resign"
+	case x < 62: // another plain signature under the same AuthAddr
+		switch r.Intn(3) {
+		case 0:
+			st.Sig = g.w.sign(r.Intn(verifC28NumKeys), st.Txn)
+		case 1:
+			st.Sig[r.Intn(64)] ^= 1 << uint(r.Intn(8))
+		default:
+			st.Sig = crypto.Signature{}
+		}
+		return v, "sig"
+	case x < 78: // the set of subsignatures differs
+		g.mutateMsig(&st.Msig, st.Txn)
+		return v, "msig"
+	case x < 92: // logic sig: arguments / delegation signature / program differ
+		switch r.Intn(5) {
+		case 0:
+			st.Lsig.Args = [][]byte{{byte(r.Intn(2))}}
+		case 1:
+			st.Lsig.Sig = g.w.sign(r.Intn(verifC28NumKeys), &prog)
+		case 2:
+			g.mutateMsig(&st.Lsig.Msig, &prog)
+		case 3:
+			g.mutateMsig(&st.Lsig.LMsig, logic.MultisigProgram{Addr: crypto.Digest(verifC28Authorizer(st)), Program: st.Lsig.Logic})
+		default:
+			st.Lsig.Logic = g.program("approve")
+		}
+		return v, "lsig"
+	default:
+		for _, p := range []*transactions.PQSig{&st.PQsig, &st.Lsig.PQsig} {
+			if verifC28PQBlank(p) {
+				continue
+			}
+			if r.Bool() {
+				p.Salt++
+			} else if sg := append([]byte{}, p.Signature...); len(sg) > 0 {
+				sg[r.Intn(len(sg))] ^= 1
+				p.Signature = sg
+			}
+		}
+		return v, "pq"
+	}
+}
+
+func verifC28CacheGenerate(seed uint64, families int) []string {
+	r := vh.NewRng(seed ^ 0xC28CAC4E)
+	w := verifC28NewWorld(true)
+	g := &verifC28Gen{w: w, r: r, hbRng: &verifC28Rng{r: vh.NewRng(seed + 78)}, mutPct: 12, bytePct: 0, maxGroup: 3}
+	var lines []string
+	for fam := 0; fam < families; fam++ {
+		g.proto = protocol.ConsensusCurrentVersion
+		if r.Chance(25) {
+			g.proto = verifC28Protos[r.Intn(5)].v
+		}
+		g.par = config.Consensus[g.proto]
+		enc := g.group()
+		base, ok := verifC28Decode(enc)
+		if !ok || len(base) == 0 {
+			continue
+		}
+		type variant struct {
+			stxs  []transactions.SignedTxn
+			enc   [][]byte
+			label string
+		}
+		vs := []variant{{label: "base:" + strings.Join(append([]string{"none"}, g.label...), "+")}}
+		vs[0].enc = enc
+		for k := 1 + r.Intn(4); k > 0; k-- {
+			v, lab := g.cacheVariant(base)
+			var ve [][]byte
+			for i := range v {
+				ve = append(ve, protocol.Encode(&v[i]))
+			}
+			vs = append(vs, variant{enc: ve, label: lab})
+		}
+		sym := verifC28NewSym(w)
+		good := true
+		for i := range vs {
+			vs[i].stxs, ok = verifC28Decode(vs[i].enc)
+			good = good && ok
+			if ok {
+				sym.register(vs[i].stxs)
+			}
+		}
+		if !good {
+			continue
+		}
+		emit := func(op string, i int, proto protocol.ConsensusVersion) {
+			lines = append(lines, sym.line("c "+op, proto, vs[i].stxs, vs[i].enc, vs[i].label))
+		}
+		lines = append(lines, "c reset")
+		first := 0
+		if r.Chance(30) { // a variant is what was verified first
+			first = 1 + r.Intn(len(vs)-1)
+		}
+		if r.Chance(80) {
+			emit("add", first, g.proto)
+		} else {
+			emit("via", first, g.proto) // verified (and cached) by the cache path itself
+		}
+		if r.Chance(6) { // the same bytes verified under another protocol version do not count
+			emit("via", first, verifC28Protos[r.Intn(5)].v)
+		}
+		for i := range vs {
+			if i != first {
+				emit("via", i, g.proto)
+			}
+		}
+		for c := r.Intn(3); c > 0; c-- {
+			emit("via", r.Intn(len(vs)), g.proto)
+		}
+		emit("via", first, g.proto)
+	}
+	return lines
+}
+
 // verifC28Corpus: op lines of $VERIF_C28_CORPUS (set by checks/C28.py to corpus/C28/verify.ops), if any
 func verifC28Corpus() []string {
 	p := os.Getenv("VERIF_C28_CORPUS")
@@ -1378,6 +1648,29 @@ func verifC28Corpus() []string {
 		}
 	}
 	return out
+}
+
+func TestVerifC28Cache(t *testing.T) {
+	out := vh.Open("c28cache")
+	defer out.Close()
+	lines, replay := vh.ReplayOps()
+	if !replay {
+		lines = verifC28CacheGenerate(vh.Seed(), vh.Budget(1500, 20000))
+		if b, err := os.ReadFile(os.Getenv("VERIF_C28_CACHE_CORPUS")); err == nil { // corpus/C28/cache.ops, run first
+			var c []string
+			for _, l := range strings.Split(string(b), "\n") {
+				if strings.HasPrefix(l, "c ") {
+					c = append(c, l)
+				}
+			}
+			lines = append(c, lines...)
+		}
+	}
+	cs := &verifC28CacheState{pool: execpool.MakeBacklog(nil, 0, execpool.LowPriority, nil)}
+	defer cs.pool.Shutdown()
+	for _, l := range lines {
+		out.Emit(l, vh.Catch(func() string { return cs.exec(l) }))
+	}
 }
 
 func TestVerifC28(t *testing.T) {
